@@ -11,7 +11,7 @@ CHECKS = {
             "Every (state, owner) x (request, requester) cell and every request sequence up to the bound is executed against the real orchestrators through set_invocation_status and judged by an independent model of the documented graph; held = no divergence on any executed request.",
             "Trusts the SVG data-edge attributes as the documented graph and the public getter for read-back; unreachable cells are poked into the backend.", "DESIGN.md 4/C01"),
     "C12": ("exploration", "runtime monitor: statement-level oracle on outputs of the real slot functions at boundary/ulp-neighbour instants + frozen-clock system runs",
-            "At every generated instant the real can_run_atomic_service is asked for every runner and the count of authorised runners, margin separation and non-empty windows are asserted; also through should_run_atomic_service on both orchestrators under a frozen virtual clock.",
+            "At every generated instant the real can_run_atomic_service is asked for every runner and the count of authorised runners, margin separation and non-empty windows are asserted; also through should_run_atomic_service on both orchestrators under a frozen virtual clock, with recorded service executions of every length, and with every runner asking through its own application instance on one SQLite file while runners join and leave.",
             "Instants are sampled (grid + all boundaries +-2 ulps), not all reals; the clock names in the orchestrator modules are rebound to a virtual clock.", "DESIGN.md 4/C12"),
 }
 
